@@ -50,6 +50,16 @@ chk("C13","codecx","exploration",
     "Schema/collection ids: every relation graph of primary links (incl. self and mutual links) over <=3 types with <=3 links (4 thorough) and 4 types with <=2 links (3 thorough): the (VersionID, CollectionID) assignment on a fresh database must be identical for a repeated run, every permutation of the SDL, reversed field order, every ordering of the partition into independent AddSchema calls, and every single deviating iteration order of the two map ranges in getSchemaSets (rewritten to an explorer-controlled iterator), plus all-reversed. Document ids: every subset of <=3 fields over 8 kinds x value alphabets x routes {JSON in every field permutation, JSON with explicit nulls for the other fields, Go map, GraphQL input, id actually stored}: one id per content.",
     "trusted: the map-range rewrite of getSchemaSets (overlay); alphabets as listed; injectivity of ids is not part of the statement and only reported.", "bounded-exhaustive enumeration of construction routes and iteration orders on the implementation, differential oracle", "§4 C13")
 
+chk("C09","relx","exploration",
+    "A relational world (G 1-N P, P 1-N K, P 1-1 O with the link on O, P self reference boss/minions) in 6 index configurations (none, foreign keys, child fields, parent fields, all, fk+parent fields): every data set (p1.n in {1,2,null} x multisets of <=2 K (3 thorough) over v x parent x 5 one-to-one layouts, self link and second hop varying pairwise) x every history of <=1 step (2 thorough) over 15 relink/unlink/delete/create steps x ~150 requests (both sides of every relation, foreign-key filters, filters through single/many/two-hop relations with _eq/_ne/_gt/_lt combined by _and/_or/_not with own-field conditions, aggregates over the many side, child sub-filters, order through the relation, limit): compared with a reference evaluator that derives both directions from the model's foreign keys where a related document exists, and across all configurations always; after every history no two live documents hold the same one-to-one link and a write the model says would create a second holder must be rejected; two explicit transactions that each give p0 a holder, all 6 interleavings.",
+    "trusted: the reference evaluator (plain Go over the model of the writes); where the related document is missing or the compared value is null the reference is silent and only agreement with the configuration without indexes is required; spurious rejections are counted, not alarmed on.",
+    "bounded-exhaustive enumeration of data sets, histories and requests on the implementation against a reference model + differential across index configurations", "§4 C09")
+
+chk("C10","acpx","exploration",
+    "Non-interference by twin, local document ACP engine enabled, 2 index configurations x requester in {second identity, anonymous}: every layout of 3 documents over {public, private, private+reader grant, private+writer grant} x every history of <=1 further step (2 thorough) over {grant/revoke reader/writer, owner update/delete, requester update/delete by id and by filter}; in every state ~130 requests (listing, showDeleted, 12 filters, order, limit/offset, count/sum/avg/min/max, groupBy, joins from both sides with filter/order/aggregate through the relation, _version, by docID, docID filter, foreign-key filter, commits / commits(docID) / commits(cid) / latestCommits, time travel T(cid, docID) for every commit x document) plus Collection.Get/Exists/GetAllDocIDs are answered for the requester by the real database and by a twin that replayed the same history without the documents the requester cannot read; answers must be identical. After every requester write attempt the owner's view of every document the requester may not update/delete is unchanged. Per layout a subscription script: the owner updates every document, the requester must be pushed exactly the readable updates.",
+    "trusted: the acp_core engine's decisions and its own in-memory store (not part of the explored device); identities fixed by an owned random stream; requests run under a hang guard; subscription results awaited with a 60 s liveness deadline whose expiry is a harness error.",
+    "bounded-exhaustive enumeration of permission layouts, histories and requests on the implementation with a twin-database (non-interference) oracle", "§4 C10")
+
 ALL = [f"C{i:02d}" for i in range(1, 21)]
 NA_REASON = "check not built yet in this round (work in progress; see DESIGN.md §4 for the planned exhaustive check)"
 
@@ -64,6 +74,8 @@ def main():
      "engines": [
        {"name":"crdtx","path":"harness/crdtx","serves_properties":["C01","C02","C03","C04"],"kind_free_text":"explicit-state BFS over real replicas on a snapshotable store device"},
        {"name":"qx","path":"harness/qx","serves_properties":["C07","C08","C17"],"kind_free_text":"bounded-exhaustive document-set and request generator, reference evaluator, twin databases"},
+       {"name":"relx","path":"harness/checks/c09.go","serves_properties":["C09"],"kind_free_text":"relational data set/history/request enumerator with a foreign-key reference model, run on every index configuration"},
+       {"name":"acpx","path":"harness/checks/c10.go","serves_properties":["C10"],"kind_free_text":"permission layout/history enumerator with a twin database that never held the unreadable documents"},
        {"name":"txnx","path":"harness/checks/c06.go","serves_properties":["C06"],"kind_free_text":"interleaving enumerator for explicit transactions with a snapshot-isolation model"},
        {"name":"faultx","path":"harness/faultx","serves_properties":["C05"],"kind_free_text":"single-fault enumeration of every storage call of every operation"},
        {"name":"vkv","path":"harness/vkv","serves_properties":[],"kind_free_text":"snapshotable transactional store device; bound to badger by `vcheck CONFORM` (exhaustive differential run) in setup"},
